@@ -20,34 +20,36 @@ CDCLOSE == <<93, 93, 62>>                          \* ]]>
 IsTagChar(c) == IsUpper(c) \/ IsDigit(c) \/ c = 46 \/ c = 95
 TagNameOK(n) == n # <<>> /\ \A i \in 1..Len(n) : IsTagChar(n[i])
 
-\* first index >= i where pat starts, 0 if none (scans forward, stops at the first match)
-RECURSIVE FindFrom(_, _, _)
-FindFrom(t, i, pat) == IF i + Len(pat) - 1 > Len(t) THEN 0
-                       ELSE IF StartsAt(t, i, pat) THEN i ELSE FindFrom(t, i + 1, pat)
-RECURSIVE NextLT(_, _)
-NextLT(t, i) == IF i > Len(t) THEN Len(t) + 1 ELSE IF t[i] = LT THEN i ELSE NextLT(t, i + 1)
-
 (***************************************************************************)
-(* Lexer                                                                   *)
+(* Lexer: one left-to-right pass (FoldLeft over the positions) with modes  *)
+(* text / tag / cdata; `skip` swallows the rest of a multi-character       *)
+(* delimiter, `start` is where the current segment began                   *)
 (***************************************************************************)
-RECURSIVE LexFrom(_, _, _)
-LexFrom(txt, i, toks) ==
-  IF i > Len(txt) THEN toks
-  ELSE IF StartsAt(txt, i, CDOPEN) THEN
-         LET j == FindFrom(txt, i + 9, CDCLOSE) IN
-         IF j = 0 THEN Append(toks, [k |-> "X", v |-> <<>>])
-         ELSE LexFrom(txt, j + 3, Append(toks, [k |-> "C", v |-> SubSeq(txt, i + 9, j - 1)]))
-  ELSE IF txt[i] = LT THEN
-         LET j == FindFrom(txt, i + 1, <<GT>>) IN
-         IF j = 0 THEN Append(toks, [k |-> "X", v |-> <<>>])
-         ELSE LET name == SubSeq(txt, i + 1, j - 1) IN
-              LexFrom(txt, j + 1,
-                      Append(toks, IF name # <<>> /\ name[1] = SLASH THEN [k |-> "E", v |-> Tail(name)]
-                                   ELSE [k |-> "S", v |-> name]))
-  ELSE LET j == NextLT(txt, i)
-           data == SubSeq(txt, i, j - 1) IN
-       LexFrom(txt, j, IF IsBlank(data) THEN toks ELSE Append(toks, [k |-> "D", v |-> Trim(data)]))
-Lex(txt) == LexFrom(txt, 1, <<>>)
+LexStep(txt, st, i) ==
+  IF st.skip > 0 THEN [st EXCEPT !.skip = @ - 1]
+  ELSE IF st.mode = "text" THEN
+       (IF txt[i] # LT THEN st
+        ELSE LET data == SubSeq(txt, st.start, i - 1)
+                 toks1 == IF IsBlank(data) THEN st.toks ELSE Append(st.toks, [k |-> "D", v |-> Trim(data)]) IN
+             IF StartsAt(txt, i, CDOPEN)
+             THEN [mode |-> "cdata", start |-> i + 9, skip |-> 8, toks |-> toks1]
+             ELSE [mode |-> "tag", start |-> i + 1, skip |-> 0, toks |-> toks1])
+  ELSE IF st.mode = "tag" THEN
+       (IF txt[i] # GT THEN st
+        ELSE LET name == SubSeq(txt, st.start, i - 1) IN
+             [mode |-> "text", start |-> i + 1, skip |-> 0,
+              toks |-> Append(st.toks, IF name # <<>> /\ name[1] = SLASH THEN [k |-> "E", v |-> Tail(name)]
+                                       ELSE [k |-> "S", v |-> name])])
+  ELSE \* cdata
+       (IF ~StartsAt(txt, i, CDCLOSE) THEN st
+        ELSE [mode |-> "text", start |-> i + 3, skip |-> 2,
+              toks |-> Append(st.toks, [k |-> "C", v |-> SubSeq(txt, st.start, i - 1)])])
+Lex(txt) ==
+  LET st == FoldLeft(LAMBDA s, i : LexStep(txt, s, i), [mode |-> "text", start |-> 1, skip |-> 0, toks |-> <<>>],
+                     [i \in 1..Len(txt) |-> i]) IN
+  IF st.mode # "text" THEN Append(st.toks, [k |-> "X", v |-> <<>>])
+  ELSE LET data == SubSeq(txt, st.start, Len(txt)) IN
+       IF IsBlank(data) THEN st.toks ELSE Append(st.toks, [k |-> "D", v |-> Trim(data)])
 
 \* streams the properties leave open: tag names outside the OFX alphabet, text before the first
 \* tag, character data mixed with a CDATA section, empty CDATA
